@@ -6,12 +6,15 @@ from vlib import Check, MachineryError
 def run(tier, replay=None):
     c = Check("C09", tier)
     c.rule = ("one event per HTTP response of the real router recorded with a time-stamping ResponseWriter (every Write/Flush, "
-              "monotonic clock); scenario = (asset, video/audio representation, addressing mode, startNumber, start time, "
-              "availabilityTimeOffset from one sample short of the shortest segment down to 1/8 of it, chunkdur value, DRM in "
-              "thorough); per scenario seeded segments (near and ~2^30 numbers), each fetched in whole-segment mode and, in real "
-              "time and concurrently, in chunked mode at: before the advertised availability time (2 instants, 425 demanded), at "
-              "it, between it and the segment end, after the end; distinct = distinct (asset, rep, configuration, segment, kind "
-              "of instant)")
+              "monotonic clock); scenario = (asset incl. non-uniform segment durations, video/audio representation, addressing "
+              "mode, startNumber, start time, availabilityTimeOffset from one sample short of the shortest segment down to 1/8 of "
+              "it, chunkdur_ as an independent dimension: smaller than / equal to / larger than (segment - offset), = segment, "
+              "> segment, DRM); per scenario seeded segments (near and ~2^30 numbers; shortest and longest of a non-uniform loop), "
+              "each fetched in whole-segment mode and, in real time and concurrently, in chunked mode at instants over the whole "
+              "life of the segment: before the advertised availability time (425 demanded), at it, at 25/50/75 % of the segment, "
+              "between availability and end, in [start + mean segment duration, end) for longer-than-mean segments, after the end; "
+              "the advertised offset is read from the live MPD fetched at the instant of each request; distinct = distinct (asset, "
+              "rep, configuration, segment, kind of instant)")
     c.assumptions = [
         "resolution of C09.notearly is 2 ms (request clock and server clock are both millisecond-truncated; shown tight by the "
         "model: Res = 1 ms and 0 have counterexamples): a chunk whose first byte is written more than 2 ms before AST + its end "
@@ -24,6 +27,8 @@ def run(tier, replay=None):
         "C09.size: 'segment duration' = the duration of this segment as served in whole-segment mode; offset = the value "
         "advertised in the live MPD for the representation's adaptation set; audio gets one more sample of slack",
         "availability of an audio segment is that of the reference (video) segment with the same number",
+        "chunkdur_ only switches the mode on (documentation / code comments): whatever its value, a chunk may span at most "
+        "(segment duration - advertised availabilityTimeOffset) + one sample",
         "lateness of later chunks is not restricted by the property text (see 'late_tail' in the report, informational)",
     ]
     c.trusted = ["harness/drive/c09 recorder and its mp4ff-based projection", "asset generator ground truth / independent VoD parse",
